@@ -249,6 +249,9 @@ def main(tier: str, replay_path: Optional[str] = None, runs: Optional[int] = Non
     engine.assert_pristine()
     if replay_path:
         return replay(replay_path)
+    from dst.c20 import reach
+
+    reach.compute()  # before the workers are forked: plans are site-directed
     cfg = TIERS[tier]
     n = runs if runs is not None else common.env_int("VERIF_RUNS", cfg["runs"])
     budget = budget_s if budget_s is not None else common.env_float("VERIF_BUDGET_S", cfg["budget_s"])
@@ -449,6 +452,7 @@ class Agg:
                          "workload classes and callbacks (dst/c20/pool.py)"],
             },
             "generated_class_graphs": pool.GEN_INFO,
+            "lazy_init_site_reach": __import__("dst.c20.reach", fromlist=["STATS"]).STATS,
             "aslr_off": boot.aslr_off,
             "harness_errors": len(self.harness_errors),
             "tree": boot.tree_fingerprint(),
